@@ -92,7 +92,11 @@ Theorem batch_limit_exact lm s c reqs :
    flat_map (prevalidate_table c) reqs <> [] \/
    exists c' un o, batch_write_tables lm s c reqs [] = (c', un, Some o)).
 Proof.
-  intros Hf Hok. unfold batch_write. rewrite Hf, Hok. cbn [negb andb].
+  intros Hf Hok. unfold batch_write. destruct (v1_empty_batch s c reqs) eqn:E0.
+  { (* SDK v1, no table entry: refused as an invalid parameter; there are no requests at all *)
+    unfold v1_empty_batch in E0. destruct s; [|discriminate]. rewrite Hf in E0. destruct reqs; [|discriminate].
+    cbn. split; [discriminate|]. intros _ H. inversion H. }
+  unfold batch_write_core. rewrite Hf, Hok. cbn [negb andb].
   change batch_limit with 25. split.
   - intros ->. reflexivity.
   - intros ->. intros H.
@@ -105,7 +109,11 @@ Qed.
 Theorem write_request_shape lm s c reqs :
   c_failure c = None ->
   forallb wreq_ok (flat_map snd reqs) = false -> batch_write lm s c reqs = (c, err_obs Validation).
-Proof. intros Hf H. unfold batch_write. now rewrite Hf, H. Qed.
+Proof.
+  intros Hf H. unfold batch_write. destruct (v1_empty_batch s c reqs) eqn:E0.
+  { unfold v1_empty_batch in E0. destruct s; [|discriminate]. rewrite Hf in E0. destruct reqs; [|discriminate]. cbn in H. discriminate. }
+  unfold batch_write_core. now rewrite Hf, H.
+Qed.
 
 (* ---- expression attribute names and values ---- *)
 Theorem unused_name_rejected names vals exprs n :
